@@ -12,6 +12,15 @@ type Value interface{}
 
 type Cell struct{ V Value }
 
+// SplitRequest asks the client to partition the input space by Cond and re-run each part
+// (trace partitioning): raised when a merge would need a symbolic slice length.
+type SplitRequest struct {
+	Cond Node
+	Why  string
+}
+
+func (s SplitRequest) Error() string { return "unsupported: " + s.Why }
+
 // ErrVal is an error value that is non-nil exactly under NonNil.
 type ErrVal struct{ NonNil Node }
 type NilVal struct{}
@@ -268,7 +277,7 @@ func (in *Interp) ite(c Node, a, b Value) Value {
 				}
 				return &Slice{Back: bk, Lo: 0, Hi: x.Len(), Cap: x.Len(), Elem: x.Elem}
 			}
-			unsupported("slice length depends on a symbolic condition (%d vs %d)", x.Len(), y.Len())
+			panic(SplitRequest{Cond: c, Why: fmt.Sprintf("slice length depends on a symbolic condition (%d vs %d)", x.Len(), y.Len())})
 		case NilVal:
 			if x.Len() == 0 {
 				return x
